@@ -319,7 +319,7 @@ func (ex *Explorer) runPath(s *Solver, it WorkItem) {
 		}
 	}
 	ex.lastNotes = p.userNotes
-	if ex.collect > len(ex.models) && end == "completed" && (ex.stride <= 1 || ex.paths%ex.stride == 0) {
+	if ex.collect > 0 && len(ex.models) < 400 && end == "completed" {
 		m := map[string]uint64{}
 		for _, v := range p.vars {
 			m[v.name] = p.model.vals[v.name] & maskB(v.w)
